@@ -51,6 +51,11 @@ CLAIMED = {
             "Every input must make the compiler return (a panic is caught in-process, an abort/stack overflow/hang by the parent's per-input watchdog and pinned to the exact input); an error that names a line names an existing line; every accepted story loads with Story::new and every divert, thread start, tunnel, function call, choice target, read count and divert-target literal in it resolves exactly (independent resolver over the JSON document, cross-checked against the runtime's content_at_path); compiling twice gives the same bytes.",
             "Trusted: the static resolver (calibrated: 0 dangling references on the reference-compiled corpus and on everything the compiler emits for the well-formed pool). Variable diverts are not statically checkable and are skipped. Open findings (validation gaps of this re-implemented compiler) are listed in known_findings.json by (reference kind, shape of the dangling path).",
             "DESIGN.md §5 C06"),
+    "C19": ("exploration",
+            "exhaustive walk of the object graph of every loaded story (corpus reference JSON, this compiler's output, compiled pool and segment family) with per-object and per-ordered-pair (tree distance bound) checks of the path algebra on the real Path/Object/Container code (exposed read-only through hook H4)",
+            "Every runtime object: its reported path resolves from the root to that very object without approximation; path -> text -> parse is an equal path of the same relativity with the same hash; every content position (container path + index) is found again by pointer_at_path. Every ordered pair of objects within the distance bound: the relative path from a to b resolves from a to b, its text form parses back to an equal, equally hashing, equally rendering relative path, and the compact path string resolves to b.",
+            "Trusted: object identity by Rc data pointer; pair checks take the first 1500 (quick) / 6000 (thorough) objects of a story in walk order (all objects get the per-object checks).",
+            "DESIGN.md §5 C19"),
     "C08": ("model_checking",
             "exhaustive enumeration of pause schedules of continue_async under a virtual clock (hook H3) on the real Story: every single pause position of every line, pause after every step, all pairs per line (thorough); every public method probed at every pause point",
             "For every choice path of every pool program and every line on it: every pause placement in the stated class gives the same lines, tags, choices and the same final globals, counts, callback log (observers, externals bound unsafe and safe) and canonical save as unsliced play; at every pause point each public method is called once: state-changing calls must be refused, and a refused (or harmless) call must leave the rest of the sliced run unchanged.",
